@@ -429,6 +429,7 @@ def partition_cases(ctx):
     if ctx.quick:
         plan = [('ss', 'float', 'g3', n, FA) for n in (2, 3, 4)] + [('ss', 'float', 'g2', n, FA) for n in (4, 5)]
         plan += [('v', 'int', 'g3', n, FA) for n in (2, 3)] + [('v', 'int', 'g2', n, FA) for n in (4, 5)]
+        plan += [('v', 'float', 'g3', n, FA) for n in (2, 3)] + [('c', 'float', 'g3', 3, FA)]
     else:
         plan = []
         for layout, dtype in [('ss', 'float'), ('v', 'int'), ('ss', 'int'), ('v', 'float'), ('cs', 'float')]:
